@@ -40,9 +40,10 @@ class Codec:
   """Dumps pytd nodes to the driver's syntax and loads them back.  Type parameters are dumped as
   (name, scope); their declarations (bound/constraints) are remembered for loading."""
 
-  def __init__(self, pytd):
+  def __init__(self, pytd, lenient=False):
     self.pytd = pytd
     self.tparams = {}
+    self.lenient = lenient
 
   # ---- dump
   def ty(self, t):
@@ -55,7 +56,7 @@ class Codec:
     if c is p.NamedType:
       return "(n %s)" % _atom(t.name)
     if c is p.ClassType:
-      if t.cls is not None and t.cls.name != t.name:
+      if t.cls is not None and t.cls.name != t.name and not self.lenient:
         # str(t) is cls.name: a ClassType resolved through an alias is outside the model (it has no `cls`)
         raise OutOfFragment("ClassType %s resolved to %s" % (t.name, t.cls.name))
       return "(c %s)" % _atom(t.name)
@@ -157,7 +158,7 @@ class Codec:
 
   def unit(self, u):
     return "(U %s (%s) (%s) (%s) (%s) (%s))" % (
-        _atom(u.name or "~"), " ".join(self.const(c) for c in u.constants),
+        _hex(u.name or ""), " ".join(self.const(c) for c in u.constants),
         " ".join(self.decl(t) for t in u.type_params), " ".join(self.cls(c) for c in u.classes),
         " ".join(self.func(f) for f in u.functions), " ".join(self.alias(a) for a in u.aliases))
 
@@ -270,7 +271,7 @@ class Codec:
 
   def l_unit(self, x):
     p = self.pytd
-    return p.TypeDeclUnit(name=None if x[1] == "~" else x[1], constants=tuple(self.l_const(y) for y in x[2]),
+    return p.TypeDeclUnit(name=_unhex(x[1]) or None, constants=tuple(self.l_const(y) for y in x[2]),
                           type_params=tuple(self.l_decl(y) for y in x[3]), classes=tuple(self.l_cls(y) for y in x[4]),
                           functions=tuple(self.l_func(y) for y in x[5]),
                           aliases=tuple(p.Alias(y[1], self.l_ty(y[2])) for y in x[6]))
@@ -317,12 +318,14 @@ class Gen:
   """Random pytd declarations.  Every class name is used either always as NamedType or always as
   ClassType inside one unit (mixing both for one name is the known-finding region c11-mixed-name-kinds)."""
 
-  def __init__(self, pytd, rng, kind_mode):
+  def __init__(self, pytd, rng, kind_mode, extra_names=(), bare_none=True):
     self.p = pytd
     self.r = rng
     self.kind = {}
     self.kind_mode = kind_mode  # "named" | "cls" | "per-name"
     self.pool = []
+    self.names = LEAF_NAMES + list(extra_names)
+    self.bare_none = bare_none
 
   def name_ty(self, n):
     if n not in self.kind:
@@ -343,8 +346,9 @@ class Gen:
     if x < 0.17:
       return p.Literal(r.choice([0, 1, 2, "x", True]))
     if x < 0.19:
-      return p.NamedType("NoneType") if self.kind_mode != "cls" else self.name_ty("builtins.NoneType")
-    return self.name_ty(r.choice(LEAF_NAMES))
+      return (p.NamedType("NoneType") if self.kind_mode != "cls" and self.bare_none
+              else self.name_ty("builtins.NoneType"))
+    return self.name_ty(r.choice(self.names))
 
   def ty(self, d):
     p, r = self.p, self.r
@@ -465,13 +469,21 @@ def deps_unit(pytd, hier):
   return pytd.TypeDeclUnit(name="deps", constants=(), type_params=(), classes=cs, functions=(), aliases=())
 
 
+PYTYPE_OPTS = {"deps": True, "lossy": False, "use_abcs": False, "max_union": 7, "remove_mutable": False,
+               "can_do_lookup": True}
+ABC_NAMES = ["int", "float", "bool", "str", "list", "Sequence", "Real", "Integral"]
+
+
 def gen_opts(rng, uniform=False):
   if uniform or rng.random() < 0.4:
-    return {"deps": True, "lossy": False, "use_abcs": False, "max_union": 7, "remove_mutable": False,
-            "can_do_lookup": True}
-  return {"deps": rng.random() < 0.7, "lossy": rng.random() < 0.3, "use_abcs": False,
-          "max_union": rng.choice([7, 7, 0, 2, 4]), "remove_mutable": rng.random() < 0.3,
-          "can_do_lookup": rng.random() < 0.5}
+    return dict(PYTYPE_OPTS)
+  o = {"deps": rng.random() < 0.7, "lossy": rng.random() < 0.3, "use_abcs": False,
+       "max_union": rng.choice([7, 7, 0, 2, 4]), "remove_mutable": rng.random() < 0.3,
+       "can_do_lookup": rng.random() < 0.5}
+  if o["deps"] and rng.random() < 0.2:
+    o["use_abcs"] = True
+    o["can_do_lookup"] = False      # the bare abc names are not classes of `deps`
+  return o
 
 
 def real_optimize(mods, unit, deps, o):
@@ -481,8 +493,11 @@ def real_optimize(mods, unit, deps, o):
 
 
 def canon(mods, codec, unit):
-  """Strict canonical form: CanonicalOrdering, then the structural dump."""
-  return codec.unit(mods["pytd_utils"].CanonicalOrdering(unit))
+  """Strict canonical form: CanonicalOrdering, then the structural dump (ClassType by name: an output may hold
+  alias-resolved ClassTypes, which only matter when it is used as an *input* again)."""
+  c2 = Codec(codec.pytd, lenient=True)
+  c2.tparams = codec.tparams
+  return c2.unit(mods["pytd_utils"].CanonicalOrdering(unit))
 
 
 def load_mods():
@@ -636,8 +651,8 @@ def widening_failures(mods, orc, before, after, o, limit=3):
   def par_le(w, q, r, in_class):
     if (q.name, q.kind, q.optional) != (r.name, r.kind, r.optional):
       return False
-    if o["remove_mutable"] and in_class and q.name in ("self", "cls") and isinstance(q.type, pytd.AnythingType):
-      return True      # visitors.AdjustSelf re-annotates the receiver (deliberate, outside the claim)
+    if o["remove_mutable"] and in_class and q.name in ("self", "cls"):
+      return True      # visitors.AdjustSelf re-annotates a receiver that is (or was absorbed to) Any: outside the claim
     return orc.le(q.type, r.type) is None and orc.le(_after(q), _after(r)) is None
 
   def sig_le(w, s, t, in_class):
@@ -663,8 +678,22 @@ def widening_failures(mods, orc, before, after, o, limit=3):
         continue
       for i, s in enumerate(f.signatures):
         if not any(sig_le(w, s, t, in_class) for t in g.signatures):
+          detail = []
+          if len(g.signatures) == 1 and len(g.signatures[0].params) == len(s.params):
+            t = g.signatures[0]
+            for q, r in zip(s.params, t.params):
+              v = orc.le(q.type, r.type)
+              if v is not None:
+                detail.append({"parameter": q.name, "before": str(q.type), "after": str(r.type), "value_lost": repr(v)})
+            v = orc.le(s.return_type, t.return_type)
+            if v is not None:
+              detail.append({"return": True, "before": str(s.return_type), "after": str(t.return_type), "value_lost": repr(v)})
+            for e in s.exceptions:
+              if not any(orc.le(e, e2) is None for e2 in t.exceptions):
+                detail.append({"exception": str(e), "after": [str(x) for x in t.exceptions]})
           out.append({"where": "%s%s signature %d" % (w, f.name, i), "before": repr(f.signatures[i])[:1500],
-                      "after": repr(g.signatures)[:3000], "lost": "no signature of the result covers it"})
+                      "after": repr(g.signatures)[:3000], "lost": "no signature of the result covers it",
+                      "detail": detail[:4]})
       # exactness of single-signature functions over plain types
       if len(f.signatures) == 1 and len(g.signatures) == 1:
         s, t = f.signatures[0], g.signatures[0]
@@ -711,7 +740,7 @@ def show(mods, unit):
     return pu.Print(c)
   except Exception:  # printer assertions on shapes the parser never produces (e.g. Callable[[A | B], …] as GenericType)
     try:
-      return Codec(mods["pytd"]).unit(c)
+      return Codec(mods["pytd"], lenient=True).unit(c)
     except OutOfFragment:
       return repr(c)
 
@@ -729,10 +758,16 @@ def idempotence_failure(mods, unit, deps, o):
   region = None
   dup = []
 
+  dupexc = []
+
   class V(mods["visitors"].Visitor):
     def EnterFunction(self, f):
       if len(set(f.signatures)) < len(f.signatures):
         dup.append(f.name)
+
+    def EnterSignature(self, s):
+      if len(set(s.exceptions)) < len(s.exceptions):
+        dupexc.append(s)
   r1.Visit(V())
   anyu = []
 
@@ -750,12 +785,575 @@ def idempotence_failure(mods, unit, deps, o):
       if len(set(ms)) < len(ms):
         same_str.append(u)
   r1.Visit(X())
+  alias = []
+
+  class Y(mods["visitors"].Visitor):
+    def EnterClassType(self, t):
+      if t.cls is not None and t.cls.name != t.name:
+        alias.append(t)
+  r1.Visit(Y())
   if same_str:
     region = "c11-same-str-members"
+  elif alias:
+    region = "c11-alias-resolved-classtype"
   elif dup:
     region = "c11-dup-sigs-after-merge"
+  elif dupexc:
+    region = "c11-dup-exceptions-after-simplify"
   elif late_object:
     region = "c11-object-resolved-late"
   elif anyu:
     region = "c11-union-any-after-adjust"
   return {"first": p1, "second": p2}, region
+
+
+# ----------------------------------------------------------------------------
+# K — correspondence
+# ----------------------------------------------------------------------------
+REQUIRED = [
+    "joinTypes_exact", "pyEq_sound", "simplifyUnions_widens", "combineContainers_widens", "simplifyContainers_widens",
+    "simplifyUnionsWithSuperclasses_widens", "findCommonSuperClasses_widens", "collapseLongUnions_widens",
+    "adjustGenericType_widens", "normalizeGenericSelfTypes_widens", "removeDuplicates_widens",
+    "combineReturnsAndExceptions_widens", "absorbMutableParameters_widens", "mergeTypeParameters_widens",
+    "optimize_widens", "optimize_widens_functions", "optimize_widens_classes", "optimize_widens_signature",
+    "optimize_widens_ty", "widens_not_full_mixed", "widens_not_full_cyclic", "lossless_changes",
+    "optimize_idempotent_not_full", "optimize_idempotent_not_full_object", "optimize_idempotent_not_full_lookup",
+    "optimize_idempotent_partial", "removeDuplicates_idempotent", "joinTypes_idempotent",
+]
+
+
+def fragment_unit(mods, codec, unit):
+  """The unit restricted to the declarations the model's dialect can express; returns (unit, dropped)."""
+  pytd = mods["pytd"]
+  keep = {"constants": [], "classes": [], "functions": [], "aliases": [], "type_params": []}
+  dropped = 0
+  for field, dump in (("constants", codec.const), ("classes", codec.cls), ("functions", codec.func),
+                      ("aliases", codec.alias), ("type_params", codec.decl)):
+    for d in getattr(unit, field):
+      try:
+        dump(d)
+        keep[field].append(d)
+      except OutOfFragment:
+        dropped += 1
+  return pytd.TypeDeclUnit(name=unit.name, constants=tuple(keep["constants"]), type_params=tuple(keep["type_params"]),
+                           classes=tuple(keep["classes"]), functions=tuple(keep["functions"]),
+                           aliases=tuple(keep["aliases"])), dropped
+
+
+class Case:
+  __slots__ = ("kind", "unit", "deps_h", "opts", "codec", "real", "real_err", "src")
+
+  def __init__(self, kind, unit, deps_h, opts, codec, src=None):
+    self.kind, self.unit, self.deps_h, self.opts, self.codec, self.src = kind, unit, deps_h, opts, codec, src
+    self.real = self.real_err = None
+
+
+def run_cases(mods, drv, cases, abcs):
+  """Feeds every case to the real Optimize and to the model; returns (disagreements, stats)."""
+  lines = [hier_line("X", abcs)]
+  last_h = None
+  for c in cases:
+    if c.deps_h is not last_h:
+      lines.append(hier_line("H", c.deps_h))
+      last_h = c.deps_h
+    lines.append(opts_line(c.opts))
+    sx = c.codec.unit(c.unit)
+    lines.append("U " + sx)
+    lines.append("G " + sx)
+  out = drv.batch(lines)
+  assert len(out) == 2 * len(cases), (len(out), len(cases))
+  dis = []
+  stats = {"changed": 0, "in_guard": 0, "unsupported": 0, "compared": 0}
+  for i, c in enumerate(cases):
+    m, g = out[2 * i], out[2 * i + 1]
+    if m == "unsupported":
+      stats["unsupported"] += 1
+      continue
+    stats["compared"] += 1
+    if g == "1 1":
+      stats["in_guard"] += 1
+    if c.real_err is not None:
+      rc = "EXC " + c.real_err
+    else:
+      try:
+        rc = canon(mods, c.codec, c.real)
+      except OutOfFragment as e:
+        stats["compared"] -= 1
+        stats["unsupported"] += 1
+        continue
+    try:
+      mc = canon(mods, c.codec, c.codec.l_unit(Codec.parse(m)))
+    except Exception as e:  # pylint: disable=broad-except
+      mc = "MODEL-OUTPUT " + m[:300] + " " + repr(e)
+    if c.real_err is None and rc.replace("(n ", "(c ") != canon(mods, c.codec, c.unit).replace("(n ", "(c "):
+      stats["changed"] += 1       # changed by more than LookupClasses' NamedType -> ClassType
+    if mc != rc:
+      dis.append({"kind": c.kind, "opts": c.opts, "input": c.codec.unit(c.unit), "deps": c.deps_h if len(c.deps_h) < 60 else "<large>",
+                  "real": rc, "model": mc, "src": c.src})
+  return dis, stats
+
+
+def gen_type_lists(mods, rng, n):
+  pytd = mods["pytd"]
+  out = []
+  for _ in range(n):
+    g = Gen(pytd, rng, rng.choice(["named", "cls", "per-name"]))
+    out.append([g.ty(rng.choice([0, 1, 1, 2])) for _ in range(rng.choice([0, 1, 2, 2, 3, 4, 6]))])
+  return out
+
+
+def k_jointypes(mods, drv, rng, n, res):
+  """JoinTypes and node equality / hash directly."""
+  pytd, pu = mods["pytd"], mods["pytd_utils"]
+  cd = Codec(pytd)
+  lists = gen_type_lists(mods, rng, n)
+  lines = []
+  for ts in lists:
+    lines.append("J (%s)" % " ".join(cd.ty(t) for t in ts))
+  pairs = []
+  for ts in lists:
+    if len(ts) >= 2:
+      a, b = ts[0], ts[1]
+      if rng.random() < 0.5 and isinstance(a, pytd.UnionType):
+        b = _raw_union(pytd, tuple(reversed(a.type_list)))      # same set, other order
+      pairs.append((a, b))
+      lines.append("Q %s %s" % (cd.ty(a), cd.ty(b)))
+  out = drv.batch(lines)
+  dis = []
+  for ts, m in zip(lists, out[:len(lists)]):
+    r = cd.ty(pu.JoinTypes(ts))
+    if r != m:
+      dis.append({"kind": "JoinTypes", "input": [cd.ty(t) for t in ts], "real": r, "model": m})
+  eq_true = 0
+  for (a, b), m in zip(pairs, out[len(lists):]):
+    r = "1" if a == b else "0"
+    eq_true += r == "1"
+    if r != m:
+      dis.append({"kind": "node ==", "input": [cd.ty(a), cd.ty(b)], "real": r, "model": m})
+    if a == b and hash(a) != hash(b):
+      dis.append({"kind": "== but different hash (dict/set lookups of the optimiser rely on it)",
+                  "input": [cd.ty(a), cd.ty(b)], "real": "hash differs", "model": "-"})
+  res.cov["distribution"]["jointypes_cases"] = len(lists)
+  res.cov["distribution"]["eq_pairs"] = len(pairs)
+  res.cov["distribution"]["eq_pairs_equal"] = eq_true
+  return dis, len(lists) + len(pairs)
+
+
+PROGRAMS = [
+    "def f(x):\n  if x: return object()\n  return [1]\n",
+    "class A: pass\nclass B(A): pass\ndef g(x):\n  if x: return A()\n  return B()\ndef h(x):\n  if x: return [A()]\n  return [B()]\n",
+    "def f(x):\n  if x: return (1, 'a')\n  return (1, 2, 3)\ndef g(x, y):\n  if x: return {1: 'a'}\n  if y: return {'a': 1.0}\n  return None\n",
+    "def f(a, b, c):\n  if a: return 1\n  if b: return 'a'\n  if c: return 1.0\n  return [a]\nx = [f(1, 2, 3), None]\n",
+    "class K:\n  def m(self, x):\n    if x: return self\n    return None\n  def n(self):\n    return [self, 1, 'a', 2.0, None, (1,), {1}, b'x']\n",
+    "import typing\ndef f(x: int) -> typing.Callable[[int], str]: ...\ndef g(x):\n  if x: return lambda a: a\n  return f\n",
+]
+
+
+def gen_program(rng, i):
+  """A small program over builtins: functions returning unions of containers / classes."""
+  vals = ["1", "'a'", "1.0", "None", "[1]", "['a']", "(1, 'a')", "(1,)", "{1: 'a'}", "{'a'}", "A()", "B()", "[A()]",
+          "[B()]", "object()", "True", "(A(), B())", "lambda: 1", "lambda: 'a'", "b'x'", "{1: [A()]}", "{1: [B()]}"]
+  src = ["class A: pass", "class B(A): pass", "class C(B): pass"]
+  for k in range(rng.choice([2, 3, 4])):
+    n = rng.choice([2, 3, 4, 5, 9])
+    body = ["def f%d_%d(x):" % (i, k)]
+    for j in range(n - 1):
+      body.append("  if x == %d: return %s" % (j, rng.choice(vals)))
+    body.append("  return %s" % rng.choice(vals))
+    src.append("\n".join(body))
+  src.append("class K%d:\n  def m(self, x):\n    if x: return %s\n    return %s\n  y = %s" % (
+      i, rng.choice(vals), rng.choice(vals), rng.choice(vals)))
+  return "\n".join(src) + "\n"
+
+
+def emitted_cases(mods, srcs):
+  """(node, deps) pairs exactly as io.generate_pyi_ast hands them to optimize.Optimize."""
+  from pytype import config, io
+  opt = mods["optimize"]
+  calls = []
+  orig = opt.Optimize
+
+  def spy(node, deps=None, **kw):
+    if isinstance(node, mods["pytd"].TypeDeclUnit):
+      calls.append((node, deps, kw))
+    return orig(node, deps, **kw)
+  opt.Optimize = spy
+  try:
+    for src in srcs:
+      n0 = len(calls)
+      try:
+        io.generate_pyi(src, config.Options.create(python_version=(3, 12)))
+      except Exception as e:  # pylint: disable=broad-except
+        continue
+      for j in range(n0, len(calls)):
+        calls[j] = calls[j] + (src,)
+  finally:
+    opt.Optimize = orig
+  return [c for c in calls if len(c) == 4]
+
+
+def correspond(res, rng, tier):
+  mods = load_mods()
+  pytd, vis = mods["pytd"], mods["visitors"]
+  drv = common.Driver("drv_c11")     # built together with the Props module in stage P (extra_targets)
+  from pytype.pytd import abc_hierarchy
+  abcs = abc_hierarchy.GetSuperClasses()
+  res.cov["distribution"] = {}
+  disagreements = []
+  t0 = time.time()
+
+  # 1) generated declarations
+  n_units = 300 if tier == "quick" else 8000
+  deps = deps_unit(pytd, HIER)
+  deps_h = deps.Visit(vis.ExtractSuperClassesByName())
+  cases = []
+  n_decl = 0
+  for i in range(n_units):
+    o = gen_opts(rng)
+    g = Gen(pytd, rng, rng.choice(["named", "cls", "per-name"]), extra_names=ABC_NAMES if o["use_abcs"] else ())
+    u = g.unit(rng.choice([1, 2, 2, 3]))
+    n_decl += len(u.constants) + len(u.functions) + len(u.classes) + len(u.aliases)
+    cases.append(Case("generated", u, deps_h, o, Codec(pytd)))
+  for c in cases:
+    try:
+      c.real = real_optimize(mods, c.unit, deps, c.opts)
+    except Exception as e:  # pylint: disable=broad-except
+      c.real_err = repr(e)[:300]
+  d1, st1 = run_cases(mods, drv, cases, abcs)
+  disagreements += d1
+  # second run: the optimiser on its own output (model and code must also agree there)
+  cases2 = []
+  for c in cases:
+    if c.real is None:
+      continue
+    cd = Codec(pytd)
+    try:
+      cd.unit(c.real)
+    except OutOfFragment:
+      continue
+    c2 = Case("generated, second run", c.real, deps_h, c.opts, cd)
+    cases2.append(c2)
+  for c in cases2:
+    try:
+      c.real = real_optimize(mods, c.unit, deps, c.opts)
+    except Exception as e:  # pylint: disable=broad-except
+      c.real_err = repr(e)[:300]
+  d2, st2 = run_cases(mods, drv, cases2, abcs)
+  disagreements += d2
+  nonidem = st2["changed"]
+  t1 = time.time()
+
+  # 2) JoinTypes, ==, hash
+  d3, n3 = k_jointypes(mods, drv, rng, 600 if tier == "quick" else 20000, res)
+  disagreements += d3
+
+  # 3) stubs emitted by io.generate_pyi for generated programs: the very (node, deps) Optimize receives
+  srcs = PROGRAMS[: 3 if tier == "quick" else len(PROGRAMS)]
+  srcs += [gen_program(rng, i) for i in range(3 if tier == "quick" else 80)]
+  em = emitted_cases(mods, srcs)
+  cases3 = []
+  dropped = 0
+  for node, dps, kw, src in em:
+    cd = Codec(pytd)
+    fu, dr = fragment_unit(mods, cd, node)
+    dropped += dr
+    dh = dps.Visit(vis.ExtractSuperClassesByName()) if dps is not None else {}
+    dh = {k: v for k, v in dh.items() if _ATOM.match(k) and all(_ATOM.match(b) for b in v)}
+    o = {"deps": dps is not None, "lossy": kw.get("lossy", False), "use_abcs": kw.get("use_abcs", False),
+         "max_union": kw.get("max_union", 7), "remove_mutable": kw.get("remove_mutable", False),
+         "can_do_lookup": kw.get("can_do_lookup", True)}
+    c = Case("emitted", fu, dh, o, cd, src=src)
+    try:
+      c.real = mods["optimize"].Optimize(fu, dps, **kw)
+    except Exception as e:  # pylint: disable=broad-except
+      c.real_err = repr(e)[:300]
+    cases3.append(c)
+  d4, st3 = run_cases(mods, drv, cases3, abcs)
+  disagreements += d4
+
+  # 4) bundled stubs (thorough): in-fragment declarations of builtins.pytd / typing.pytd, as the loader resolves them
+  st4 = {"compared": 0, "changed": 0, "in_guard": 0, "unsupported": 0}
+  bundled_dropped = 0
+  if tier == "thorough":
+    from pytype import config, load_pytd
+    loader = load_pytd.create_loader(config.Options.create(python_version=(3, 12)))
+    cases4 = []
+    for name in ("builtins", "typing"):
+      ast = loader.import_name(name)
+      whole_h = ast.Visit(vis.ExtractSuperClassesByName())
+      whole_h = {k: v for k, v in whole_h.items() if _ATOM.match(k) and all(_ATOM.match(b) for b in v)}
+      # one case per class / chunk of functions, so that one out-of-fragment declaration costs little
+      decls = [("classes", c) for c in ast.classes] + [("functions", f) for f in ast.functions] + \
+              [("constants", k) for k in ast.constants]
+      for j in range(0, len(decls), 8):
+        part = decls[j:j + 8]
+        u = pytd.TypeDeclUnit(name=ast.name, constants=tuple(d for f, d in part if f == "constants"), type_params=(),
+                              classes=tuple(d for f, d in part if f == "classes"),
+                              functions=tuple(d for f, d in part if f == "functions"), aliases=())
+        cd = Codec(pytd)
+        fu, dr = fragment_unit(mods, cd, u)
+        bundled_dropped += dr
+        if not (fu.classes or fu.functions or fu.constants):
+          continue
+        c = Case("bundled " + name, fu, whole_h, dict(PYTYPE_OPTS), cd)
+        try:
+          c.real = real_optimize(mods, fu, ast, c.opts)
+        except Exception as e:  # pylint: disable=broad-except
+          c.real_err = repr(e)[:300]
+        cases4.append(c)
+    d5, st4 = run_cases(mods, drv, cases4, abcs)
+    disagreements += d5
+
+  res.cov["evaluations"] = st1["compared"] + st2["compared"] + n3 + st3["compared"] + st4["compared"]
+  res.cov["distinct_nontrivial"] = st1["changed"] + st3["changed"] + st4["changed"]
+  res.cov["exhaustive"] = False
+  res.cov["rule"] = (
+      "real optimize.Optimize (in-process, /repo working tree) vs the compiled Lean model on the same pytd tree sent as "
+      "an s-expression; both outputs through pytd_utils.CanonicalOrdering and compared *structurally* (stricter than the "
+      "printed text: NamedType vs ClassType and one-element unions are distinguished). Inputs: generated units over a "
+      "6-class hierarchy + builtins (unions up to 9 members, nested generics, tuples of arity 0-3 next to homogeneous "
+      "ones, Callable/CallableType, Any/object/NoneType/nothing/LateType/TypeVar/Literal/Annotated, overloads built to "
+      "collide after optimisation, mutated parameters, nested classes, generic self) x random option settings (deps, "
+      "lossy, use_abcs, max_union in {0,2,4,7}, remove_mutable, can_do_lookup; 40% exactly io.generate_pyi_ast's); every "
+      "first-run output is optimised a second time by both sides; pytd_utils.JoinTypes / node == / hash on random type "
+      "lists; the (node, deps) pairs io.generate_pyi hands to Optimize for fixed and generated programs; thorough: "
+      "in-fragment declarations of the bundled builtins.pytd/typing.pytd. non-trivial = the optimiser changed the unit; "
+      "distinct = every generated unit is distinct with overwhelming probability (seeded)")
+  res.cov["distribution"].update({
+      "generated_units": n_units, "generated_decls": n_decl, "generated_changed_by_optimize": st1["changed"],
+      "generated_inside_theorem_guard": st1["in_guard"], "generated_unsupported_by_model": st1["unsupported"],
+      "second_run_cases": st2["compared"], "second_run_changed_again(non_idempotent, model agrees)": nonidem,
+      "emitted_optimize_calls": len(cases3), "emitted_decls_outside_fragment": dropped,
+      "emitted_inside_theorem_guard": st3["in_guard"], "emitted_changed": st3["changed"],
+      "bundled_cases": st4["compared"], "bundled_decls_outside_fragment": bundled_dropped,
+      "bundled_inside_theorem_guard": st4["in_guard"], "bundled_changed": st4["changed"],
+      "options_pytype_share": sum(1 for c in cases if c.opts == PYTYPE_OPTS) / max(1, len(cases)),
+      "seconds_generated": round(t1 - t0, 1), "seconds_total": round(time.time() - t0, 1),
+  })
+  ex = cases[0]
+  res.add_samples([{"opts": ex.opts, "input": ex.codec.unit(ex.unit)[:700],
+                    "real==model": canon(mods, ex.codec, ex.real)[:700] if ex.real is not None else ex.real_err}])
+  if cases3:
+    ex = cases3[0]
+    res.add_samples([{"emitted_from": ex.src, "input": ex.codec.unit(ex.unit)[:500],
+                      "real==model": canon(mods, ex.codec, ex.real)[:500] if ex.real is not None else ex.real_err}])
+  return disagreements[:40]
+
+
+# ----------------------------------------------------------------------------
+# W — known findings, replayed on the real code with the property's own oracle
+# ----------------------------------------------------------------------------
+def _mk(pytd, **kw):
+  d = dict(name="m", constants=(), type_params=(), classes=(), functions=(), aliases=())
+  d.update(kw)
+  return pytd.TypeDeclUnit(**d)
+
+
+def _fn(pytd, name, sigs):
+  return pytd.Function(name, tuple(sigs), pytd.MethodKind.METHOD, pytd.MethodFlag.NONE, ())
+
+
+def _sig(pytd, params, ret, exc=()):
+  ps = tuple(pytd.Parameter(n, t, pytd.ParameterKind.REGULAR, False, None) for n, t in params)
+  return pytd.Signature(ps, None, None, ret, tuple(exc), ())
+
+
+def witness_units(mods):
+  """id -> (unit, deps hierarchy, options, which half of the property fails)."""
+  pytd = mods["pytd"]
+  N, C, G, U = pytd.NamedType, pytd.ClassType, pytd.GenericType, pytd.UnionType
+  lst = lambda t: G(N("list"), (t,))
+  no_deps = dict(PYTYPE_OPTS, deps=False)
+  return {
+      "c11-dup-sigs-after-merge": (
+          _mk(pytd, functions=(_fn(pytd, "f", [
+              _sig(pytd, [("x", U((lst(N("int")), lst(N("str")))))], N("int")),
+              _sig(pytd, [("x", lst(U((N("int"), N("str")))))], N("int"))]),)), {}, no_deps, "idempotence"),
+      "c11-dup-exceptions-after-simplify": (
+          _mk(pytd, functions=(_fn(pytd, "f", [_sig(pytd, [("x", N("A"))], N("A"), exc=(N("A"), U((N("A"), N("B")))))]),)),
+          {"A": [], "B": ["A"]}, dict(PYTYPE_OPTS, can_do_lookup=False), "idempotence"),
+      "c11-union-any-after-adjust": (
+          _mk(pytd, functions=(_fn(pytd, "f", [
+              _sig(pytd, [("x", pytd.AnythingType())],
+                   U((C("builtins.object"), G(C("builtins.list"), (C("builtins.int"),)))))]),)), {}, no_deps, "idempotence"),
+      "c11-object-resolved-late": (
+          _mk(pytd, functions=(_fn(pytd, "f", [_sig(pytd, [], N("builtins.object"))]),)),
+          {"builtins.object": []}, dict(PYTYPE_OPTS), "idempotence"),
+      "c11-same-str-members": (
+          _mk(pytd, constants=(pytd.Constant("x", U((N("A"), C("A")))),)), {"A": []},
+          dict(PYTYPE_OPTS, can_do_lookup=False), "widening"),
+  }
+
+
+def replay_witness(mods, wid):
+  """Returns a description of what fails, or None if the witness no longer fails."""
+  pytd = mods["pytd"]
+  unit, hier, o, half = witness_units(mods)[wid]
+  deps = deps_unit(pytd, hier) if o["deps"] else None
+  if half == "idempotence":
+    d, _ = idempotence_failure(mods, unit, deps, o)
+    if d is None:
+      return None
+    return "Optimize(Optimize(x)) != Optimize(x): first run prints %r, second run %r" % (
+        d["first"].strip()[-160:], d["second"].strip()[-160:])
+  orc = Oracle(pytd, dict(hier), random.Random(1))
+  r = real_optimize(mods, unit, deps, o)
+  f = widening_failures(mods, orc, unit, r, o)
+  if not f:
+    return None
+  return "narrowed: %s: %s -> %s loses %s" % (f[0]["where"], f[0].get("before"), f[0].get("after"), f[0].get("value_lost"))
+
+
+def witnesses(res):
+  mods = load_mods()
+  known, fixed = common.known_findings("C11")
+  replayed = []
+  for e in known:
+    wid = e["id"]
+    if wid not in witness_units(mods):
+      res.violation("unknown-witness", {"property": "C11", "kind": "known finding without replay", "id": wid})
+      continue
+    what = replay_witness(mods, wid)
+    replayed.append({"id": wid, "still_fails": what is not None})
+    if what is not None:
+      res.known_lines.append("%s: %s" % (wid, e["what"]))
+  # the emitted-stub form of the object->Any finding: a program whose stub io.generate_pyi emits non-idempotently
+  try:
+    from pytype import config, io
+    ret, txt = io.generate_pyi(PROGRAMS[0], config.Options.create(python_version=(3, 12)))
+    again = mods["pytd_utils"].Print(mods["pytd_utils"].CanonicalOrdering(
+        mods["optimize"].Optimize(ret.ast, ret.ast_deps, lossy=False, use_abcs=False, max_union=7, remove_mutable=False)))
+    replayed.append({"id": "c11-union-any-after-adjust (through io.generate_pyi)",
+                     "emitted": txt.strip().splitlines()[-1], "after_second_Optimize": again.strip().splitlines()[-1],
+                     "still_fails": txt.strip() != again.strip()})
+  except Exception as e:  # pylint: disable=broad-except
+    replayed.append({"id": "generate_pyi replay", "error": repr(e)[:200]})
+  # the acyclicity hypothesis of the theorems (not a finding: cyclic inheritance is not a class hierarchy)
+  pytd = mods["pytd"]
+  cyc = _mk(pytd, constants=(pytd.Constant("x", pytd.UnionType((pytd.NamedType("A"), pytd.NamedType("B")))),))
+  r = real_optimize(mods, cyc, deps_unit(pytd, {"A": ["B"], "B": ["A"]}), dict(PYTYPE_OPTS, can_do_lookup=False))
+  replayed.append({"id": "assumption Antisymm (cyclic hierarchy A(B), B(A): x: A | B)", "real_output": str(r.constants[0].type)})
+  res.cov["witnesses_replayed"] = replayed
+  for e in fixed:
+    res.violation("fixed-witness", {"property": "C11", "kind": "fixed entry without replay", "id": e.get("id")})
+
+
+# ----------------------------------------------------------------------------
+# S — search with the property's oracle (only when P or K broke)
+# ----------------------------------------------------------------------------
+CHARACTERISED = ("c11-dup-sigs-after-merge", "c11-dup-exceptions-after-simplify", "c11-union-any-after-adjust",
+                 "c11-object-resolved-late", "c11-same-str-members", "c11-alias-resolved-classtype")
+
+
+def check_unit(mods, unit, hier, o, orc_rng_seed=3):
+  """The property on one input of the real Optimize: list of failures (empty = holds)."""
+  pytd, vis = mods["pytd"], mods["visitors"]
+  deps = deps_unit(pytd, hier) if o["deps"] else None
+  h = dict(hier) if o["deps"] else {}
+  if o["deps"]:
+    h.update(unit.Visit(vis.ExtractSuperClassesByName()))
+  orc = Oracle(pytd, h, random.Random(orc_rng_seed))
+  try:
+    r = real_optimize(mods, unit, deps, o)
+  except Exception as e:  # pylint: disable=broad-except
+    return [{"crash": repr(e)[:300]}]
+  out = widening_failures(mods, orc, unit, r, o)
+  if not o["lossy"] and not o["remove_mutable"]:
+    d, region = idempotence_failure(mods, unit, deps, o)
+    if d is not None and region not in CHARACTERISED:
+      out.append({"not_idempotent": d})
+  return out
+
+
+def shrink_unit(mods, unit, hier, o):
+  pytd = mods["pytd"]
+  items = [("c", x) for x in unit.constants] + [("f", x) for x in unit.functions] + [("k", x) for x in unit.classes] + \
+          [("a", x) for x in unit.aliases]
+
+  def build(its):
+    return unit.Replace(constants=tuple(x for k, x in its if k == "c"), functions=tuple(x for k, x in its if k == "f"),
+                        classes=tuple(x for k, x in its if k == "k"), aliases=tuple(x for k, x in its if k == "a"))
+
+  def fails(its):
+    return bool(check_unit(mods, build(its), hier, o))
+  small = common.ddmin(items, fails, budget_s=20.0)
+  u = build(small)
+  # then drop signatures one at a time
+  t0 = time.time()
+  changed = True
+  while changed and time.time() - t0 < 15:
+    changed = False
+    for i, f in enumerate(u.functions):
+      for j in range(len(f.signatures)):
+        if len(f.signatures) <= 1:
+          break
+        g = f.Replace(signatures=f.signatures[:j] + f.signatures[j + 1:])
+        cand = u.Replace(functions=u.functions[:i] + (g,) + u.functions[i + 1:])
+        if check_unit(mods, cand, hier, o):
+          u, changed = cand, True
+          break
+      if changed:
+        break
+  return u
+
+
+def search(res, rng, disagreements, pfail):
+  mods = load_mods()
+  pytd = mods["pytd"]
+  found = []
+  cands = []
+  for d in disagreements:
+    if d.get("kind", "").startswith("generated") and isinstance(d.get("input"), str):
+      try:
+        cd = Codec(pytd)
+        cands.append((cd.l_unit(Codec.parse(d["input"])), HIER, d["opts"]))
+      except Exception:  # pylint: disable=broad-except
+        pass
+  t0 = time.time()
+  budget = 100 if common.tier() == "quick" else 400
+  i = 0
+  while time.time() - t0 < budget and len(found) < 2:
+    if i < len(cands):
+      unit, hier, o = cands[i]
+    else:
+      o = gen_opts(rng)
+      o["use_abcs"] = False
+      g = Gen(pytd, rng, rng.choice(["named", "cls"]), bare_none=False)
+      unit, hier = g.unit(rng.choice([1, 2, 2])), HIER
+    i += 1
+    fails = check_unit(mods, unit, hier, o)
+    if fails:
+      small = shrink_unit(mods, unit, hier, o)
+      f2 = check_unit(mods, small, hier, o) or fails
+      cd = Codec(pytd, lenient=True)
+      try:
+        sx = cd.unit(small)
+      except OutOfFragment:
+        sx = repr(small)
+      found.append({"options": o, "unit": show(mods, small), "unit_sexp": sx, "hierarchy": hier, "failures": f2[:3]})
+  res.cov["search"] = {"inputs_checked": i, "seconds": round(time.time() - t0, 1),
+                       "oracle": "finite universe (instances up to depth 2 over the hierarchy, literals): every type "
+                                 "position admits afterwards what it admitted before, every signature is covered; plain "
+                                 "types keep exactly their values under lossless settings; Optimize twice = once outside "
+                                 "the characterised regions " + ", ".join(CHARACTERISED)}
+  return found
+
+
+def main():
+  return common.run_check(
+      "C11", REQUIRED, correspond, witnesses, search, extra_targets=["drv_c11"],
+      trusted=["hand-written model of optimize.py / pytd_utils.JoinTypes / node equality (lean/PytypeModel/Pytd/{Join,Optimize}.lean), "
+               "tied to /repo by structural differential runs",
+               "the semantics lean/PytypeModel/Pytd/Den.lean: callables are covariant in the result and unconstrained in the "
+               "arguments; a generic admits the values of its base whose i-th slot fits the i-th parameter (zip)",
+               "the s-expression codec between pytd nodes and the driver (harness/c11.py Codec, lean/Driver/C11.lean)"],
+      assumptions=["the class hierarchy has no inheritance cycles (Antisymm); a cyclic one makes the real optimiser narrow (replayed in W)",
+                   "types are well-kinded (kok): TupleType over a tuple class, CallableType over typing.Callable, generic bases are class references",
+                   "ClassType.name equals the name of the class it points to (str(t) is cls.name); alias-resolved ClassTypes are outside the model",
+                   "no union reached by SimplifyUnionsWithSuperclasses holds NamedType(n) next to ClassType(n) (guard suwsOK; its failure is known finding c11-same-str-members)",
+                   "remove_mutable=True: the single visitors are proved, their composition is not (visitors.AdjustSelf narrows `self: Any` by design); MergeTypeParameters only without class-level type parameters",
+                   "CombineContainers re-visits joined parameters with fuel 2*size+4 (exhaustion would show as a K disagreement)"])
+
+
+if __name__ == "__main__":
+  sys.exit(main())
